@@ -2776,9 +2776,7 @@ class Mesh:
             "'production' grid non-interactively to ensure reproducibility."
         )
 
-        old_spacing_method = (
-            self.equilibrium.nonorthogonal_options.nonorthogonal_spacing_method
-        )
+        old_options = dict(self.equilibrium.nonorthogonal_options)
 
         self.equilibrium.resetNonorthogonalOptions(nonorthogonal_settings)
 
@@ -2787,21 +2785,20 @@ class Mesh:
                 "redistributePoints would do nothing for an orthogonal grid."
             )
 
-        if (
-            self.equilibrium.nonorthogonal_options.nonorthogonal_spacing_method
-            != old_spacing_method
-        ):
-            # The distribution of points along the separatrices, and the 'orthogonal'
-            # spacing functions derived from it when the regions are created, depend on
-            # nonorthogonal_spacing_method. Re-create the regions so that the result is
-            # the same as for a Mesh created from scratch with the new settings.
-            parallel_map = next(iter(self.regions.values())).parallel_map
-            self.makeRegions(parallel_map)
+        if dict(self.equilibrium.nonorthogonal_options) == old_options:
+            # Nothing has changed, the points are already distributed according to
+            # these settings
             return
 
-        for region in self.regions.values():
-            print("redistributing", region.name, flush=True)
-            region.distributePointsNonorthogonal(nonorthogonal_settings)
+        # The distribution of points along the separatrices, and the 'orthogonal'
+        # spacing functions derived from it when the regions are created, depend on the
+        # non-orthogonal settings (the spacing method, and for some methods the spacing
+        # lengths), and re-gridding contours that have already been re-gridded depends
+        # (at the level of the FineContour resolution) on how far they were extended
+        # past the targets before. Re-create the regions so that the result is the same
+        # as for a Mesh created from scratch with the new settings.
+        parallel_map = next(iter(self.regions.values())).parallel_map
+        self.makeRegions(parallel_map)
 
     def calculateRZ(self):
         """
